@@ -210,8 +210,9 @@ class C05(engine.Property):
         kind = gen.weighted_choice(rng, cfg["read_weights"])
         return getattr(st.gen, "g_" + kind)(rng, st.view, st.namer, focus=st.focus[-4:])
 
-    def _mutation(self, rng, cfg, st):
-        kind = gen.weighted_choice(rng, cfg["weights"])
+    def _mutation(self, rng, cfg, st, kind=None):
+        if kind is None:
+            kind = gen.weighted_choice(rng, cfg["weights"])
         if kind == "adj_dict":
             return gen.g_adj_dict(st.gen, rng, st.view, st.namer)
         if kind == "adj_matrix":
